@@ -1,5 +1,7 @@
 """C11 — Effective features = own + all ancestors', whatever the order of creation."""
-from harness import sessions, tsgen
+import copy
+
+from harness import sessions, tsderive, tsgen
 from harness.common import bud
 from harness.sessions import SB
 
@@ -38,15 +40,16 @@ def gen_session(rng, n_ops):
     user = []
     instantiated = []
 
-    def listing_checks(t):
+    def listing_checks(t, ts=ts, sh=sh, own=True):
         eff = sh.effective(t)
         i = len(sb.ops); sb.query(ts, "all_features", name=t); expect[i] = ("names", sorted(eff))
-        i = len(sb.ops); sb.query(ts, "features", name=t); expect[i] = ("names", sorted(f["name"] for f in sh.own[t]))
+        if own:
+            i = len(sb.ops); sb.query(ts, "features", name=t); expect[i] = ("names", sorted(f["name"] for f in sh.own[t]))
         for n in list(eff)[:3] + ["nosuch"]:
             i = len(sb.ops); sb.query(ts, "get_feature", name=t, feature=n)
             expect[i] = ("feat", None if n not in eff else (eff[n]["name"], eff[n]["range"], eff[n]["elem"]))
 
-    def instantiate(t):
+    def instantiate(t, ts=ts, sh=sh):
         eff = sh.effective(t)
         names = [n for n in eff if n != "sofa"]
         rngs = {n: eff[n]["range"] for n in names}
@@ -120,6 +123,24 @@ def gen_session(rng, n_ops):
     for t in user:
         listing_checks(t)
         instantiate(t)
+    # the same after XML loading, JSON loading or merging (C11: "after XML/JSON loading or merging"), and a feature
+    # added to the derived type system reaches the type and all its descendants
+    if user and rng.random() < 0.6:
+        kind = rng.choice(tsderive.KINDS)
+        ts2 = tsderive.derive(rng, sb, ts, sh, kind)
+        sh2 = copy.deepcopy(sh)
+        # (which of two identical definitions on one chain counts as the own one may depend on the merge order)
+        own = kind not in ("merge-reparent",)
+        for t in user:
+            listing_checks(t, ts2, sh2, own)
+        d = rng.choice(user)
+        i = len(sb.ops)
+        sb.create_feature(ts2, d, "lateFeature", "uima.cas.Integer")
+        expect[i] = sh2.create_feature(d, "lateFeature", "uima.cas.Integer", None, None, None)
+        if expect[i] == "ok":
+            for t in sh2.descendants(d)[:4]:
+                listing_checks(t, ts2, sh2, own)
+                instantiate(t, ts2, sh2)
     return sb.ops, expect, len(user), False
 
 
